@@ -689,7 +689,11 @@ func callSSA(i *interpreter, caller *frame, callpos token.Pos, fn *ssa.Function,
 			if v, ok := genericExternal(fr, fi, args); ok {
 				return v
 			}
-			panic(engineFault{"no code for function: " + fi.name})
+			where := ""
+			for f, n := caller, 0; f != nil && n < 4; f, n = f.caller, n+1 {
+				where += " < " + f.fn.String()
+			}
+			panic(engineFault{"no code for function: " + fi.name + where})
 		}
 	}
 	if fi.repo && ex.curFn != nil && i.initDepth == 0 {
